@@ -20,6 +20,7 @@ type Scope struct {
 	pkg   string
 	inOld bool
 	pure  bool
+	exitOf *ssa.BasicBlock // function exit reached from this block (per-path postconditions)
 }
 
 func (sc *Scope) child() *Scope {
@@ -109,41 +110,68 @@ func (sc *Scope) lookup(name string) (Val, bool) {
 	}
 	if sc.fr != nil {
 		fr := sc.fr
-		// loop-header phi
-		if sc.at != nil {
-			for _, in := range sc.at.Instrs {
+		// candidates: source-level bindings (debug refs) and phis named after the variable; the closest one
+		// that dominates the point of interest wins (at == nil: function exit, any unique binding)
+		type cand struct {
+			val    ssa.Value
+			block  *ssa.BasicBlock
+			idx    int
+			isAddr bool
+		}
+		var cands []cand
+		for _, b := range fr.dbg[name] {
+			cands = append(cands, cand{b.val, b.block, b.idx, b.isAddr})
+		}
+		for _, blk := range fr.fn.Blocks {
+			for _, in := range blk.Instrs {
 				if p, ok := in.(*ssa.Phi); ok && p.Comment == name {
-					if v, ok := fr.env[p]; ok {
-						return v, true
-					}
+					cands = append(cands, cand{p, blk, -1, false})
 				}
 			}
 		}
-		// closest dominating debug binding
-		var best *dbgBind
-		for i := range fr.dbg[name] {
-			b := &fr.dbg[name][i]
-			if _, ok := fr.env[b.val]; !ok {
-				if _, isC := b.val.(*ssa.Const); !isC {
-					if _, isP := b.val.(*ssa.Parameter); !isP {
-						if _, isF := b.val.(*ssa.FreeVar); !isF {
-							continue
-						}
-					}
-				}
-			}
-			if sc.at != nil && !(b.block == sc.at || b.block.Dominates(sc.at)) {
-				continue
-			}
-			if sc.at != nil && b.block == sc.at {
-				// bindings inside the header itself come after the phis; usable only if they are phis (handled above)
-				if _, isPhi := b.val.(*ssa.Phi); !isPhi {
+		var best *cand
+		ambiguous := false
+		for i := range cands {
+			b := &cands[i]
+			switch b.val.(type) {
+			case *ssa.Const, *ssa.Parameter, *ssa.FreeVar:
+			default:
+				if _, ok := fr.env[b.val]; !ok {
 					continue
 				}
 			}
-			if best == nil || best.block.Dominates(b.block) && (best.block != b.block || b.idx > best.idx) {
+			if sc.at == nil && sc.exitOf != nil {
+				if !(b.block == sc.exitOf || b.block.Dominates(sc.exitOf)) {
+					continue
+				}
+				if best == nil || (best.block != b.block && best.block.Dominates(b.block)) || (best.block == b.block && b.idx > best.idx) {
+					best = b
+				}
+			} else if sc.at != nil {
+				if !(b.block == sc.at || b.block.Dominates(sc.at)) {
+					continue
+				}
+				if b.block == sc.at && b.idx >= 0 {
+					// bindings inside the header itself come after the phis: not valid at the loop cut point
+					if _, isPhi := b.val.(*ssa.Phi); !isPhi {
+						continue
+					}
+					if b.val.(*ssa.Phi).Block() != sc.at {
+						continue
+					}
+				}
+				if best == nil || (best.block != b.block && best.block.Dominates(b.block)) || (best.block == b.block && b.idx > best.idx) {
+					best = b
+				}
+			} else {
+				if best != nil && best.val != b.val {
+					ambiguous = true
+				}
 				best = b
 			}
+		}
+		if ambiguous {
+			unsup("name %q is ambiguous at function exit (several bindings); use a parameter or result name", name)
 		}
 		if best != nil {
 			v := fr.eval(best.val)
@@ -330,6 +358,13 @@ func (c *VCtx) translate(sc *Scope, e Expr) Val {
 		} else {
 			body = Implies(And(guards...), body)
 		}
+		if len(x.Triggers) > 0 {
+			var pats []string
+			for _, te := range x.Triggers {
+				pats = append(pats, c.asTerm(c.translate(n, te)).S)
+			}
+			return T(SBool, fmt.Sprintf("(%s (%s) (! %s :pattern (%s)))", q, strings.Join(binders, " "), body.S, strings.Join(pats, " ")))
+		}
 		return T(SBool, fmt.Sprintf("(%s (%s) %s)", q, strings.Join(binders, " "), body.S))
 	}
 	unsup("contract expression %T", e)
@@ -349,7 +384,7 @@ func (c *VCtx) indexVal(sc *Scope, base Val, idx *Term) Val {
 				es = sortOf(et)
 			}
 			h := c.heap(st, elemHeapName(es), ArrSort(SRef, ArrSort(SInt, es)))
-			r := Select(Select(h, SlArr(b)), Add(SlOff(b), idx))
+			r := Select(Select(h, SlArr(b)), SIdx(b, idx))
 			r.GT = et
 			if et != nil {
 				return c.typed(r, et)
@@ -588,6 +623,15 @@ func (c *VCtx) translateCall(sc *Scope, x *ECall) Val {
 			return Select(m, k)
 		}
 		unsup("in() on %s", m.Sort)
+	case "trig":
+		// trig(x): an uninterpreted predicate used only to control quantifier instantiation
+		a := arg(0)
+		fn := c.declareFun("trig!"+string(a.Sort), []Sort{a.Sort}, SBool)
+		return T(SBool, fmt.Sprintf("(%s %s)", fn, a.S))
+	case "same":
+		return Eq(arg(0), arg(1))
+	case "hasprefix":
+		return c.hasPrefix(arg(0), arg(1))
 	case "held":
 		// held(lockowner): the monitor lock of the object is held by this thread (meta-level)
 		t := arg(0)
